@@ -20,9 +20,9 @@ type RenderContext struct {
 	env                *Environment
 	context            map[string]interface{}
 	blocks             map[string][]Node
-	parentBlocks       map[string][]Node       // Original block content from parent templates
-	blockChain         map[string][]*BlockNode // Definitions of each block along the extends chain, most derived first
-	blockLevel         int                     // Position of currentBlock in its chain (for parent() function)
+	parentBlocks       map[string][]Node            // Original block content from parent templates
+	blockChain         map[string][]blockDefinition // Definitions of each block along the extends chain, most derived first
+	blockLevel         int                          // Position of currentBlock in its chain (for parent() function)
 	macros             map[string]Node
 	parent             *RenderContext
 	engine             *Engine    // Reference to engine for loading templates
